@@ -22,16 +22,16 @@ FMT_RULE = ("cases are generated from one splitmix64 state (VERIF_SEED, op, inde
             "over-weighting ASCII punctuation, blanks, tab/CR/LF and non-ASCII text, typed word (empty / prefix of a value / arbitrary / ending in E,ER,ERR), "
             "0-3 messages, a no-space set, environment switches; a case is non-trivial when it has at least one candidate or message; distinct = distinct input digest")
 
-HOOK_COMMITS = ["94169f7"]
+HOOK_COMMITS = ["94169f7", "6cd8fd8"]
 
 ENGINES = [
-    {"name": "extractor", "path": "extract/", "serves_properties": ["C02", "C03", "C04", "C05", "C06", "C08", "C10", "C11", "C12"],
+    {"name": "extractor", "path": "extract/", "serves_properties": ["C02", "C03", "C04", "C05", "C06", "C08", "C10", "C11", "C12", "C13"],
      "kind_free_text": "Go (go/ast): regenerates lean/Carapace/Gen (replacer tables, character sets, format strings, shell lists) from /repo on every run"},
-    {"name": "lean", "path": "lean/", "serves_properties": ["C02", "C03", "C04", "C05", "C06", "C08", "C10", "C11", "C12"],
+    {"name": "lean", "path": "lean/", "serves_properties": ["C02", "C03", "C04", "C05", "C06", "C08", "C10", "C11", "C12", "C13"],
      "kind_free_text": "Lean 4 library: Model (transcription of the code), Spec (readers, decoders, oracles), Props (theorems); compiled driver lean/Driver"},
-    {"name": "harness", "path": "harness/", "serves_properties": ["C02", "C03", "C04", "C05", "C06", "C08", "C10", "C11", "C12"],
+    {"name": "harness", "path": "harness/", "serves_properties": ["C02", "C03", "C04", "C05", "C06", "C08", "C10", "C11", "C12", "C13"],
      "kind_free_text": "Go module linking the real packages from /repo with -tags verif; generators and in-process execution, one JSON line per case"},
-    {"name": "runner", "path": "check", "serves_properties": ["C02", "C03", "C04", "C05", "C06", "C08", "C10", "C11", "C12"],
+    {"name": "runner", "path": "check", "serves_properties": ["C02", "C03", "C04", "C05", "C06", "C08", "C10", "C11", "C12", "C13"],
      "kind_free_text": "python3 (stdlib): orchestration, known-finding classification by input neutralisation, shrinking, evidence"},
 ]
 
@@ -94,6 +94,18 @@ PROPS.update({
             "claimed": True, "engine": "alg",
             "level_text": ("`C10_sorted_unique`: two sorted arrangements of the same candidates are the same list (for every permutation delivered by map iteration or scheduling and every sorting algorithm) because the order - display text, ties broken by value - is total on candidates with distinct (display, value) (`str_eq_of_not_lt`, `le_antisymm_key`), and `C10_unique_key`: after Unique (a map keyed by value) that condition holds. Runtime part searched, not proved: 30 in-process repetitions per generated case must be byte-identical."),
             "level_note": ALG_NOTE + " The Go runtime's map iteration and scheduler are only sampled."},
+})
+
+
+PROPS.update({
+    "C13": {"modules": ["Carapace.Props.C13"], "ops": [("exportrt", {"quick": 4000, "thorough": 300000}), ("import", {"quick": 4000, "thorough": 300000})],
+            "rule": "exportrt: random completions (0-8, rarely 300 candidates) with quotes, backslashes, C0 controls, DEL, <>&, U+2028/2029, U+FFFD, non-BMP text in every field, equal values with different displays, tags/styles/uids, 0-2 messages, no-space sets, usage, exported through InvokedAction.export or through value(\"export\") and read back with ActionImport; import: such documents mutated (truncated at a random byte, trailing data, wrong types, extra / duplicate / case-variant fields, nulls, other versions, non-JSON); non-trivial = every case; distinct = distinct input digest",
+            "assumptions": ["encoding/json is a dependency: its string encoding is modelled (Model/Export.lean) and compared byte for byte with json.Marshal on every case; its decoder is not modelled (Lean's own JSON parser judges validity of the mutated documents)",
+                            "ActionExecute and the child-process path (`<program> _carapace export`) reuse the same two functions and are not exercised separately in the quick tier",
+                            "invalid UTF-8 is lossy by construction of encoding/json and outside the claim (valid Unicode text)"],
+            "claimed": True, "engine": "alg",
+            "level_text": ("`C13_string_roundtrip`: for every Unicode string s, decoding the JSON string that the model of Go's `appendString` writes for s yields s again (transducer induction; the per-character obligation is decided over all of ASCII and U+2028/2029 and lifted to every other character), plus `json_body_ascii` (an encoded field contains no raw quote / control character, so no text can break out of its field). The model of the export document (`marshalExport`: field order, omitempty, values sorted by value, null for a nil slice) is compared byte for byte with the real document on every generated completion; the oracle requires ActionImport of the real document to yield the same candidates (value, display, description, style, tag, uid) and meta, and any input that is not valid JSON to yield exactly one message and no candidate, never a panic."),
+            "level_note": ALG_NOTE + " encoding/json: encoder modelled, decoder trusted."},
 })
 
 
